@@ -574,13 +574,41 @@ def wellformed(resource):
 
 
 # ----------------------------------------------------------------------------
+# documents whose metamodel is reachable ONLY through a location written in the document
+
+def ecore_document(scratch):
+    """lib.ecore: the metamodel saved as a sibling document (a fresh copy, never registered anywhere)."""
+    from pyecore.resources import ResourceSet, URI
+    with tempfile.TemporaryDirectory(dir=scratch) as d:
+        rs = ResourceSet()
+        r = rs.create_resource(URI(os.path.join(d, 'lib.ecore')))
+        r.append(make_mm()['pk'])
+        r.save()
+        with open(os.path.join(d, 'lib.ecore'), 'rb') as f:
+            return f.read()
+
+
+def with_location(fmt, data):
+    """XMI: xsi:schemaLocation="<nsURI> lib.ecore" on the root; JSON: every eClass given as lib.ecore#//Name."""
+    if fmt == 'json':
+        return data.replace(('"' + NS + '#//').encode(), b'"lib.ecore#//')
+    i = data.index(b' xmlns:')
+    data = data[:i] + f' xsi:schemaLocation="{NS} lib.ecore"'.encode() + data[i:]
+    if b'xmlns:xsi=' not in data:
+        data = data.replace(b' xmlns:xmi=', f' xmlns:xsi="{XSI_NS}" xmlns:xmi='.encode(), 1)
+    return data
+
+
+# ----------------------------------------------------------------------------
 # one attempt
 
 class Env:
     """A directory holding the intact documents of one (spec, format, uuid)."""
 
-    def __init__(self, d, fmt, files, mm):
+    def __init__(self, d, fmt, files, mm, register_mm=True, probes=None):
         self.d, self.fmt, self.files, self.mm = d, fmt, files, mm
+        self.register_mm = register_mm  # False: the metamodel is reachable only through the documents themselves
+        self.probes = probes or {}      # name -> bytes: documents that must be answered as in a fresh ResourceSet
         self.baselines = {}
         self.restore = {}       # documents to put back intact before the follow-up reload
         for k, v in files.items():
@@ -595,15 +623,49 @@ def new_rset(env):
     from pyecore.resources.json import JsonResource
     rs = tracing_rset()
     rs.resource_factory['json'] = lambda uri, **kw: JsonResource(uri, **kw)
-    rs.metamodel_registry[NS] = env.mm['pk']
+    if env.register_mm:
+        rs.metamodel_registry[NS] = env.mm['pk']
     return rs
 
 
 def snapshot(rs):
-    from pyecore.resources import global_registry
+    """Every registry of the resource set and of the module, plus the public tables of the registered resources."""
+    from pyecore.resources import resource as R
+    uniq = []
+    for v in rs.resources.values():
+        if not any(v is x for x in uniq):
+            uniq.append(v)
     return {'resources': list(rs.resources.items()),
             'mm_local': list(rs.metamodel_registry.maps[0].items()),
-            'mm_global': list(global_registry.items())}
+            'mm_global': list(R.global_registry.items()),
+            'tables': {
+                'rset.resource_factory': list(rs.resource_factory.items()),
+                'ResourceSet.resource_factory': list(R.ResourceSet.resource_factory.items()),
+                'rset.uri_mapper': list(rs.uri_mapper.maps[0].items()),
+                'global_uri_mapper': list(R.global_uri_mapper.items()),
+                'rset.uri_converter': list(enumerate(rs.uri_converter)),
+                'global_uri_converter': list(enumerate(R.global_uri_converter)),
+                'Resource.decoders': list(enumerate(R.Resource.decoders))},
+            'per_resource': [(v, sorted(map(str, getattr(v, 'uuid_dict', {}))),
+                              [id(x) for x in getattr(v, 'uuid_dict', {}).values()],
+                              sorted(map(str, getattr(v, 'prefixes', {}).items())),
+                              len(getattr(v, 'decoders', [])), len(getattr(v, 'contents', [])))
+                             for v in uniq]}
+
+
+def other_tables_changed(before, after):
+    """-> description of the first registry (other than resources / metamodel registries) that differs."""
+    for name, items in before['tables'].items():
+        if not same_items(items, after['tables'][name]):
+            return f'{name}: {len(items)} -> {len(after["tables"][name])} entries (or rebound)'
+    now = {id(t[0]): t for t in after['per_resource']}
+    for t in before['per_resource']:
+        a = now.get(id(t[0]))
+        if a is not None and t[1:] != a[1:]:
+            what = ['uuid_dict keys', 'uuid_dict values', 'prefixes', 'decoders', 'contents']
+            k = next(i for i in range(5) if t[1 + i] != a[1 + i])
+            return f'{what[k]} of previously loaded {os.path.basename(t[0].uri.normalize())}'
+    return None
 
 
 def same_items(a, b):
@@ -632,6 +694,8 @@ def attempt(env, target, data, priors, timeout, model=None, follow=False, restor
             with open(env.path(name), 'wb') as f:
                 f.write(content)
         env.baselines[key] = intact_load(env, new_rset(env), target, priors, timeout, True)
+        for name in env.probes:
+            env.baselines[('probe', name, tuple(priors))] = probe_load(env, new_rset(env), name, priors, timeout, True)
         for name in (restore or {}):
             with open(env.path(name), 'wb') as f:
                 f.write(env.files[name])
@@ -709,6 +773,25 @@ def _unordered_opposites(dump):
     return out
 
 
+def probe_load(env, rs, name, priors, timeout, load_priors):
+    """outcome class of asking rs for probe document `name` -> 'returned' | 'raised:<Exception>' | 'hang'"""
+    from pyecore.resources import URI
+    with open(env.path(name), 'wb') as f:
+        f.write(env.probes[name])
+    try:
+        if load_priors:
+            for p in priors:
+                watchdog(lambda p=p: rs.get_resource(URI(env.path(p))), timeout)
+        watchdog(lambda: rs.get_resource(URI(env.path(name))), timeout)
+        return 'returned'
+    except Hang:
+        return 'hang'
+    except Exception as e:
+        return 'raised:' + type(e).__name__
+    finally:
+        os.remove(env.path(name))
+
+
 def follow_up(env, rs, target, priors, timeout, restored=()):
     """After a failed load: the intact document, in the same ResourceSet and in a fresh one, must load as it
     does in a ResourceSet that never saw a failure."""
@@ -718,6 +801,14 @@ def follow_up(env, rs, target, priors, timeout, restored=()):
     base = env.baselines[(target, tuple(priors))]
     probs = []
     from pyecore.resources import URI
+    for name in sorted(env.probes):
+        pbase = env.baselines[('probe', name, tuple(priors))]
+        for where, rs_, load_priors in (('same-rset', rs, False), ('fresh-rset', new_rset(env), True)):
+            got = probe_load(env, rs_, name, priors, timeout, load_priors)
+            if got != pbase:
+                probs.append(('later-load-affected', f'after a failed load, document {name} (no metamodel location) is '
+                              f'answered {got} in the {where}; a resource set without that failure answers {pbase}',
+                              where))
     # a restored document that loaded successfully on the way is still registered (by design) with its
     # previous content: reloading in the same ResourceSet would not read the intact file
     stale = any(URI(env.path(name)).normalize() in rs.resources for name in (restored or ()))
@@ -796,7 +887,12 @@ def _attempt(env, target, priors, timeout, model, follow=False, restore=None):
         if not same_items(before['resources'], after1['resources'][:len(before['resources'])]):
             probs.append(('registry-changed', 'an earlier entry of rset.resources changed'))
         if not same_items(before['mm_local'], after1['mm_local']) or not same_items(before['mm_global'], after1['mm_global']):
-            probs.append(('metamodel-registry-changed', 'metamodel_registry / global_registry changed'))
+            added = [k for k, _ in after1['mm_local'] if k not in dict(before['mm_local'])]
+            probs.append(('metamodel-registry-changed', 'metamodel_registry / global_registry changed'
+                          + (f': new local entries {added}' if added else '')))
+        other = other_tables_changed(before, after1)
+        if other:
+            probs.append(('other-registry-changed', 'a registry changed during the failed load: ' + other))
         dumps_after = [dump_resource(r, tab) for r in loaded_before]
         if dumps_after != dumps_before:
             probs.append(('prior-resource-changed', 'objects of a previously loaded resource changed: '
@@ -1013,7 +1109,8 @@ def b64(b):
 
 def make_case(env, target, data, priors, kind, what, spec_info):
     return {'format': env.fmt, 'files': {k: b64(v) for k, v in env.files.items()},
-            'restore': {k: b64(v) for k, v in env.restore.items()}, 'target': target,
+            'restore': {k: b64(v) for k, v in env.restore.items()}, 'register_mm': env.register_mm,
+            'probes': {k: b64(v) for k, v in env.probes.items()}, 'target': target,
             'data': b64(data), 'priors': priors, 'corruption': kind, 'what': what, 'info': spec_info}
 
 
@@ -1031,11 +1128,13 @@ def run(ctx, out):
     timeout = 5.0
     stats = {'attempts': 0, 'raised': 0, 'returned': 0, 'hang': 0, 'by_kind': {}, 'outcome_by_kind': {},
              'prefix_attempts': 0, 'corruption_attempts': 0, 'model_calls': 0, 'with_nested_loads': 0,
-             'setup_failed': 0, 'registry_walk_calls': 0, 'followed_by_intact_reload': 0, 'later_load_affected_inherited': 0, 'docs': [], 'samples': [], 'distinct': set(), 'intact_not_loading': []}
-    n_specs, nmax, prefix_cap = (4, 5, 1000) if not thorough else (16, 7, 5000)
+             'setup_failed': 0, 'registry_walk_calls': 0, 'followed_by_intact_reload': 0, 'location_only_attempts': 0, 'later_load_affected_inherited': 0, 'docs': [], 'samples': [], 'distinct': set(), 'intact_not_loading': []}
+    n_specs, nmax, prefix_cap = (4, 5, 700) if not thorough else (16, 7, 5000)
     budget = time.time() + (float(os.environ.get("C18_BUDGET", 32)) if not thorough else 500)
     cut = False
     mm = make_mm()
+    ecore_bytes = ecore_document(scratch)
+    seen_sl = set()
 
     tainted = {}
 
@@ -1114,6 +1213,34 @@ def run(ctx, out):
                 if corr:
                     out.diff(f'registry machine vs impl on a registry walk ({fmt}): {corr}',
                              make_case(env, main, full, [], 'intact', 'registry walk', info))
+            # the same documents, naming their metamodel by LOCATION only (xsi:schemaLocation / eClass given as
+            # lib.ecore#//Name), in a ResourceSet that does not know the metamodel; after every failure: all
+            # registries as before, and the original document (no location) still refused as in a fresh one
+            if not cut:
+                sl_files = {k: with_location(fmt, v) for k, v in files.items()}
+                sl_files['lib.ecore'] = ecore_bytes
+                with tempfile.TemporaryDirectory(dir=scratch) as dsl:
+                    envl = Env(dsl, fmt, sl_files, mm, register_mm=False, probes={f'noloc.{fmt}': full})
+                    fulll = sl_files[main]
+                    sl_scen = [(main, []), (f'm2.{fmt}', [f'prior.{fmt}', ext])]
+                    for target, priors in sl_scen:
+                        r = attempt(envl, target, fulll, priors, timeout, model)
+                        if r['outcome'] != 'returned' and not r['setup_failed']:
+                            stats['intact_not_loading'].append({'format': fmt, 'use_uuid': use_uuid, 'target': target,
+                                                                'priors': priors, 'metamodel': 'by location only'})
+                        record(envl, target, fulll, priors, 'intact', 'the document as saved, metamodel by location only',
+                               info, r, fulll)
+                    gen = xmi_corruptions(fulll) if fmt == 'xmi' else json_corruptions(fulll)
+                    for ci, (kind, what, data) in enumerate(gen):
+                        todo = sl_scen if thorough else [sl_scen[ci % 2]] if ci % 2 == 0 or kind not in seen_sl else []
+                        seen_sl.add(kind)
+                        for target, priors in todo:
+                            r = attempt(envl, target, data, priors, timeout, model, follow=True)
+                            stats['location_only_attempts'] += 1
+                            record(envl, target, data, priors, 'byloc:' + kind, 'metamodel by location only; ' + what, info, r)
+                        if time.time() > budget:
+                            cut = True
+                            break
             # every prefix (stride 1 up to the cap, then strided)
             stride = 1 if len(full) <= prefix_cap else -(-len(full) // prefix_cap)
             for k in list(range(0, len(full), stride)) + [len(full.rstrip())]:
@@ -1173,6 +1300,7 @@ def run(ctx, out):
         'attempts_by_corruption_kind': stats['by_kind'],
         'outcome_by_format_kind': stats['outcome_by_kind'],
         'attempts_with_nested_get_resource': stats['with_nested_loads'],
+        'attempts_on_documents_naming_their_metamodel_by_location_only': stats['location_only_attempts'],
         'failed_loads_followed_by_intact_reload(same+fresh rset)': stats['followed_by_intact_reload'],
         'later_load_affected_inherited(not attributed)': stats['later_load_affected_inherited'],
         'registry_walk_calls(get/remove on intact documents)': stats['registry_walk_calls'],
@@ -1216,7 +1344,8 @@ def replay(ctx, rep):
         print('REPRODUCED' if bad else 'not reproduced', '(registry walk)')
         return 1 if bad else 0
     with tempfile.TemporaryDirectory(dir=scratch) as d:
-        env = Env(d, case['format'], files, make_mm())
+        env = Env(d, case['format'], files, make_mm(), register_mm=case.get('register_mm', True),
+                  probes={k: base64.b64decode(v) for k, v in (case.get('probes') or {}).items()})
         env.restore = {k: base64.b64decode(v) for k, v in (case.get('restore') or {}).items()}
         r = attempt(env, case['target'], data, case['priors'], 5.0, None, follow=True)
         full = files.get(f'main.{case["format"]}', b'')
